@@ -122,6 +122,10 @@ def bool1():
         for op in ("<", "<=", ">", ">=", "==", "!="):
             out.append(f"date {op} {iso}")
         out.append(f"{iso} <= date")
+    # match functions used as VALUES, not as plain conjuncts (nothing may be decided from their literals alone)
+    out += ['contains("NETFLIX") == false', 'contains("UBER") == contains("EATS")', 'contains("NETFLIX") + contains("UBER") + contains("EATS") >= 2',
+            'startswith("UBER") != true', 'len([r for r in orders if contains("AMAZON")]) == 0', '(1 if contains("NETFLIX") else 2) == 2',
+            'not (contains("UBER") and contains("EATS")) and amount > 0', 'contains("NETFLIX") or amount > 99.75', 'max(contains("ZZZ"), amount > 0)']
     out += ["txn.amount > 99.75", "TXN.Amount > 99.75", "field.amount == amount", "txn.description == description", "txn.month == month",
             "field.date == date", "amount > threshold", "Amount > Threshold"]
     return out
@@ -364,6 +368,30 @@ def check_ref(case):
                                  "case": {"kind": "ref", "exprs": case["exprs"]}})
             else:
                 outcomes.add("agree:" + rv[0])
+        # the rule engine must find a rule with this condition true exactly when the expression's value is truthy
+        if not getattr(check_ref, "_skip_engine", False):
+            from tally.merchant_engine import parse_merchants, MerchantParseError
+            import copy
+            try:
+                eng = parse_merchants(f"threshold = 100\ntagname = \"UBER\"\n[R]\nmatch: {e}\ncategory: C\n")
+            except Exception:  # noqa  (conditions the loader rejects are not rules)
+                eng = None
+            if eng is not None:
+                for ti, t in enumerate(TXNS):
+                    rk, rv = ref_eval(e, t)
+                    if rk != "ok":
+                        continue
+                    evals += 1
+                    try:
+                        m = eng.match(txn_for_real(t), data_sources=copy.deepcopy(ORDERS)).matched
+                    except Exception as ex:  # noqa
+                        m = f"{type(ex).__name__}"
+                    want = bool(rv[1]) if rv[0] != "list" else bool(rv[1])
+                    if m != want:
+                        outcomes.add("MISMATCH")
+                        if len(viol) < 25:
+                            viol.append({"kind": "entry-points-disagree", "detail": {"expression": e, "txn": ti, "reference_value": rv, "engine_matched": m},
+                                         "case": {"kind": "ref", "exprs": case["exprs"]}})
         if any(w in e.lower() for w in _NEEDS_ENV):
             continue
         # second pass over all transactions without variables / sources (one expression, many transactions in a row)
@@ -492,6 +520,24 @@ def check_law(case):
                         viol.append({"kind": "short-circuit-broken", "detail": {"expression": e, "txn": ti, "expected": want, "real": g}, "case": case})
                     else:
                         outcomes.add("short-circuit-ok")
+            # := binds inside ONE expression: the next expression of the same rule file (another rule, a let:, a global variable) starts clean
+            from tally.merchant_engine import parse_merchants
+            for text, want_cat in (('[A]\nmatch: (n := amount) > 100000000\ncategory: A\n\n[B]\nlet: n = 5\nmatch: n == 5\ncategory: B\n', "B"),
+                                   ('g = (k := 7) > 0\n\n[B]\nlet: k = 1\nmatch: g and k == 1\ncategory: B\n', "B"),
+                                   ('[A]\nmatch: (q := 1) == 2\ncategory: A\n\n[B]\nmatch: q == 1\ncategory: B\n', ""),
+                                   ('limit = 10\n\n[A]\nmatch: (limit := 1000000) < 0\ncategory: A\n\n[B]\nmatch: amount < limit or amount >= limit\ncategory: B\ntags: {limit}\n', "B")):
+                evals += 1
+                nontrivial += 1
+                try:
+                    rr = parse_merchants(text).match(txn_for_real(t))
+                    got_cat = rr.category or ""
+                    extra = sorted(rr.tags)
+                except Exception as ex:  # noqa
+                    got_cat, extra = f"{type(ex).__name__}: {ex}", []
+                if got_cat != want_cat or (want_cat == "B" and "tags:" in text and extra != ["10"]):
+                    viol.append({"kind": "evaluation-order-broken", "detail": {"rules": text, "txn": ti, "expected_category": want_cat, "got_category": got_cat, "tags": extra}, "case": case})
+                else:
+                    outcomes.add("walrus-scope-ok")
             for e, want in (("(a := 1) and (b := a + 1) and b == 2", True), ("(a := 0) or (b := 5) and b == 5", True),
                             ("(a := amount) == amount and a == amount", True), ("[(c := 2), c + 1][1] if false else ((c := 3) and c == 3)", True),
                             ("(x := 1) + (x := 2) * x", 5), ("(k := 1) < (k := 2) < (k := 3) and k == 3", True), ("(k := 5) < (k := 2) < (k := 3) or k == 2", True)):
